@@ -116,7 +116,9 @@ def main():
         for n in range(1, 7):
             if found or tried > budget:
                 break
-            for ys in itertools.product([0.0, 1.0, 2.0], repeat=n):
+            for ys0 in itertools.product([0.0, 1.0, 2.0], repeat=n):
+              for scale in ((1.0, 2.0 ** -30) if n <= 4 else (1.0,)):
+                ys = tuple(v * scale for v in ys0)
                 for fn in fset:
                     wopts = [None] if fn in ("median", "quantile") else [None, tuple([1.0, 2.0][(i * 7 + n) % 2] for i in range(n))]
                     for w in wopts:
@@ -136,6 +138,8 @@ def main():
                         break
                 if found or tried > budget:
                     break
+              if found or tried > budget:
+                  break
         rng = random.Random(seed)
         while not found and tried < budget:
             d = iso.gen_case(rng, 14)
